@@ -309,7 +309,8 @@ class World:
         """fsize0: RLIMIT_FSIZE = 0 with SIGXFSZ ignored - every write to a regular file fails with EFBIG after a
         successful open (what a full disk looks like)."""
         if fsize0:
-            argv = ["/bin/sh", "-c", "trap '' XFSZ; ulimit -f 0; exec \"$@\"", "sh"] + list(argv)
+            blocks = 0 if fsize0 is True else int(fsize0)        # 512-byte blocks; True = 0 = every write fails
+            argv = ["/bin/sh", "-c", "trap '' XFSZ; ulimit -f %d; exec \"$@\"" % blocks, "sh"] + list(argv)
         try:
             r = subprocess.run(argv, cwd=self.sb.root, input=stdin, stdout=subprocess.PIPE, stderr=subprocess.STDOUT,
                                text=True, env=vlib.ENV, timeout=120)
